@@ -16,6 +16,7 @@ import (
 	"path/filepath"
 	"regexp"
 	"sort"
+	"strconv"
 	"strings"
 
 	"ggvh/internal/gen"
@@ -83,10 +84,17 @@ func parseJSONStream(out []byte, dir string) []binDiag {
 				for _, it := range items {
 					p := strings.Split(it.Posn, ":")
 					d := binDiag{Pkg: pkg, Analyzer: an, Message: it.Message}
-					if len(p) >= 3 {
+					isNum := func(s string) bool { _, err := strconv.Atoi(s); return err == nil && s != "" }
+					switch {
+					case len(p) >= 3 && isNum(p[len(p)-1]) && isNum(p[len(p)-2]):
 						d.File = strings.Join(p[:len(p)-2], ":")
 						fmt.Sscan(p[len(p)-2], &d.Line)
 						fmt.Sscan(p[len(p)-1], &d.Col)
+					case len(p) >= 2 && isNum(p[len(p)-1]): // a //line directive without column: file:line
+						d.File = strings.Join(p[:len(p)-1], ":")
+						fmt.Sscan(p[len(p)-1], &d.Line)
+					default:
+						d.File = it.Posn
 					}
 					if rel, err := filepath.Rel(dir, d.File); err == nil && !strings.HasPrefix(rel, "..") {
 						d.File = rel
@@ -226,14 +234,18 @@ func corrBin(o corrOpts) *res.Summary {
 
 // ---------------------------------------------------------------- C06
 func binDrivers(o corrOpts, sum *res.Summary, r *rng.R, bin string) {
-	n := 12
+	n := 24
 	if o.tier == "thorough" {
 		n = 150
 	}
 	dir := scratchDir("drv")
-	defer os.RemoveAll(dir)
+	if os.Getenv("GGV_KEEP") == "" {
+		defer os.RemoveAll(dir)
+	} else {
+		fmt.Fprintln(os.Stderr, "kept", dir)
+	}
 	genModule(dir, r, n, func(i int) gen.Options {
-		return gen.Options{Ignores: i%2 == 0, TestFiles: i%3 == 0, Spelling: []int{0, 1, 3}[i%3]}
+		return gen.Options{Ignores: i%2 == 0, TestFiles: i%3 == 0, Spelling: []int{0, 1, 3}[i%3], ForceTwin: i%2 == 1}
 	})
 	notTest := func(d binDiag) bool { return !strings.HasSuffix(d.File, "_test.go") }
 	base := runStandalone(bin, dir, nil, nil)
@@ -345,8 +357,8 @@ func binDrivers(o corrOpts, sum *res.Summary, r *rng.R, bin string) {
 				sum.Disagree(res.Disagreement{Kind: "panic", Input: "in-process sanity-check " + pr.ID, Impl: e, Clause: "C06 facts_serialisable / C10"})
 			}
 			for _, d := range pr.Diags {
-				rel, _ := filepath.Rel(dir, d.File)
-				set[fmt.Sprintf("%s:%d:%d:%s", rel, d.Line, d.Col, d.Code)] = true
+				rel, _ := filepath.Rel(dir, d.AdjFile)
+				set[fmt.Sprintf("%s:%d:%d:%s", rel, d.AdjLine, d.AdjCol, d.Code)] = true
 			}
 		}
 		var l []string
@@ -578,6 +590,24 @@ func binWellformed(o corrOpts, sum *res.Summary, r *rng.R, bin string) {
 		}
 	}
 	sum.DistinctNontrivial = len(sum.Distribution)
+	// under scan-tests + custom exclude-paths: still no diagnostic inside an excluded file
+	{
+		alt := runStandalone(bin, dir, []string{"-config.scan-tests=true", "-config.exclude-paths=zz_,in_test"}, nil)
+		if c := crashed(alt); c != "" {
+			sum.Disagree(res.Disagreement{Kind: "panic", Input: "standalone scan-tests + exclude-paths", Impl: c, Clause: "C10"})
+		}
+		for _, d := range alt.diags {
+			sum.Evaluations++
+			sum.Count("alt-config-diagnostics")
+			if strings.Contains(filepath.Join(dir, d.File), "zz_") || strings.Contains(filepath.Join(dir, d.File), "in_test") {
+				sum.Disagree(res.Disagreement{Kind: "impl-vs-spec", Input: fmt.Sprintf("wellformed seed=%d [scan-tests=true exclude-paths=zz_,in_test] %s", o.seed, d.key()), Impl: d.File, Model: "a non-excluded file",
+					Clause: "C17: every diagnostic is positioned inside a non-excluded file of the package being analysed"})
+			}
+			if strings.HasSuffix(d.File, "_test.go") && strings.HasPrefix(d.Code, "TONL") {
+				sum.Disagree(res.Disagreement{Kind: "impl-vs-spec", Input: fmt.Sprintf("wellformed seed=%d [scan-tests=true] %s", o.seed, d.key()), Impl: d.File, Model: "no TONL in test files", Clause: "C17 / C14"})
+			}
+		}
+	}
 	// exit status in text mode
 	for _, sub := range []string{"./...", "./impl", "./d"} {
 		cmd := exec.Command(bin, sub)
